@@ -161,6 +161,12 @@ def events(n, out):
     if k == "assign":
         events(n.get("right"), out)
         out.append(("assign", norm(n["left"]), norm(n.get("right_text"))))
+        # `x = x + 2` is `x += 2`; `x = 2` sets it
+        mm = re.match(r"^(\w+)\+(\d+)$", norm(n.get("right_text")))
+        if mm and mm.group(1) == norm(n["left"]):
+            out.append(("addassign", norm(n["left"]), "+=", mm.group(2)))
+        elif re.match(r"^\d+$", norm(n.get("right_text") or "")):
+            out.append(("addassign", norm(n["left"]), "=", norm(n["right_text"])))
         return
     if k == "binary" and norm(n.get("op", "")) in ("+=", "-="):
         events(n.get("r"), out)
@@ -489,6 +495,8 @@ def rule_sib(ctx, f, ast, rt, a):
             for e in incs:
                 if e[2] == "+=" and e[3].isdigit():
                     tot += int(e[3])
+                elif e[2] == "=" and e[3].isdigit():
+                    tot = int(e[3])
                 else:
                     okc = False
             ctx.check(okc and tot == len(pat), "C08-SIB", "serialize_ops#%s%s.consumed" % ("+".join(pat), ("?" + "&".join(o[1] for o in row["ops"] if isinstance(o, tuple))) if conds else ""),
